@@ -9,22 +9,45 @@
                                       upstream's own failure was passed on because max_retries was reached
      trip{k,admitted}                 a request was sent while k requests were held upstream: admitted or refused (503)
      sample{stable,inflight,requests,pending,retries,connections,up_req_active,ds_active,up_conn_active,conns_truth}
-                                      books read while `inflight` requests are held and nothing else moves *)
+                                      books read while `inflight` requests are held and nothing else moves
+     --- TCP proxy part (pkg/filter/network/streamproxy) ---
+     trun{maxconn}                    new TCP-proxy history; clusters ok / ref / bh (echo host, refusing host, black-holed host)
+     topen{id,cluster,established,k}  a downstream connection was opened towards `cluster` while k upstream connections of
+                                      that cluster were established: it got an upstream connection or was closed by the proxy
+     tclose{id}                       an established pair was closed (by the client or by the upstream) and the proxy has
+                                      closed the other side
+     tsample{cluster,truth,connections,up_conn_active}   books of one cluster next to the echo host's open-connection count *)
 EXTENDS Integers, FiniteSets, TLC, VTrace
 
-VARIABLES maxreq, maxretry, infl, rinfl
-vars == <<maxreq, maxretry, infl, rinfl>>
+VARIABLES maxreq, maxretry, infl, rinfl, maxconn, topenS
+vars == <<maxreq, maxretry, infl, rinfl, maxconn, topenS>>
 tvars == <<vars, l>>
 
 CanCreate(cur, max) == max = 0 \/ cur < 0 \/ cur < max      \* as Breaker!CanCreate
 Counted(max, n) == IF max = 0 THEN 0 ELSE n                   \* the code does not count a resource without threshold
 
-TraceInit == l = 1 /\ maxreq = 0 /\ maxretry = 0 /\ infl = {} /\ rinfl = {}
-TRun == IsEvent("run") /\ maxreq' = Ev.maxreq /\ maxretry' = Ev.maxretry /\ infl' = {} /\ rinfl' = {}
+TraceInit == l = 1 /\ maxreq = 0 /\ maxretry = 0 /\ infl = {} /\ rinfl = {} /\ maxconn = 0 /\ topenS = {}
+TRun == IsEvent("run") /\ maxreq' = Ev.maxreq /\ maxretry' = Ev.maxretry /\ infl' = {} /\ rinfl' = {} /\ UNCHANGED <<maxconn, topenS>>
+TTRun == IsEvent("trun") /\ maxconn' = Ev.maxconn /\ topenS' = {} /\ UNCHANGED <<maxreq, maxretry, infl, rinfl>>
+TTOpen == /\ IsEvent("topen")
+          /\ Expect(Ev.k = Cardinality({ x \in topenS : x[2] = Ev.cluster }), "driver-truth")
+          /\ Expect(Ev.cluster # "ok" \/ (Ev.established <=> CanCreate(Ev.k, maxconn)),
+                    IF Ev.established THEN "tcp-admitted-above-max-connections" ELSE "tcp-refused-below-max-connections")
+          /\ Expect(Ev.cluster = "ok" \/ ~Ev.established, "driver-truth")
+          /\ topenS' = IF Ev.established THEN topenS \cup {<<Ev.id, Ev.cluster>>} ELSE topenS
+          /\ UNCHANGED <<maxreq, maxretry, infl, rinfl, maxconn>>
+TTClose == /\ IsEvent("tclose") /\ topenS' = { x \in topenS : x[1] # Ev.id }
+           /\ UNCHANGED <<maxreq, maxretry, infl, rinfl, maxconn>>
+TTSample == /\ IsEvent("tsample")
+            /\ LET n == Cardinality({ x \in topenS : x[2] = Ev.cluster }) IN
+                 /\ Expect(Ev.truth = n, "driver-truth")
+                 /\ Expect(Ev.connections = Counted(maxconn, n), IF Ev.connections < 0 THEN "tcp-connections-negative" ELSE "tcp-connections-not-conserved")
+                 /\ Expect(Ev.up_conn_active = n, IF Ev.up_conn_active < 0 THEN "tcp-upstream-connection-active-negative" ELSE "tcp-upstream-connection-active-gauge")
+            /\ UNCHANGED vars
 TArrive == /\ IsEvent("arrive") /\ infl' = infl \cup {Ev.tok}
            /\ rinfl' = IF Ev.retry THEN rinfl \cup {Ev.tok} ELSE rinfl
-           /\ UNCHANGED <<maxreq, maxretry>>
-TDepart == IsEvent("depart") /\ infl' = infl \ {Ev.tok} /\ rinfl' = rinfl \ {Ev.tok} /\ UNCHANGED <<maxreq, maxretry>>
+           /\ UNCHANGED <<maxreq, maxretry, maxconn, topenS>>
+TDepart == IsEvent("depart") /\ infl' = infl \ {Ev.tok} /\ rinfl' = rinfl \ {Ev.tok} /\ UNCHANGED <<maxreq, maxretry, maxconn, topenS>>
 TRetryTrip == /\ IsEvent("retrytrip")
               /\ Expect(Ev.k = Cardinality(rinfl), "driver-truth")
               /\ Expect(Ev.admitted <=> CanCreate(Ev.k, maxretry), IF Ev.admitted THEN "retried-above-max-retries" ELSE "retry-refused-below-max-retries")
@@ -45,6 +68,6 @@ TSample == /\ IsEvent("sample")
                 /\ Expect(Ev.up_conn_active = Ev.conns_truth, "upstream-connection-active-gauge")
            /\ UNCHANGED vars
 TNote == IsEvent("note") /\ UNCHANGED vars
-TraceNext == TRun \/ TArrive \/ TDepart \/ TRetryTrip \/ TTrip \/ TSample \/ TNote
+TraceNext == TTRun \/ TTOpen \/ TTClose \/ TTSample \/ TRun \/ TArrive \/ TDepart \/ TRetryTrip \/ TTrip \/ TSample \/ TNote
 TraceSpec == TraceInit /\ [][TraceNext]_tvars
 ====
